@@ -27,6 +27,7 @@ static void gen_pair(Ctx& c, uint64_t idx, Str* B, Str* R, const char** gen) {
     Rng& r = c.rng;
     *B = gen_abs_base(r);
     if (r.chance(1, 40)) *B = gen_uri(r);      // sometimes a relative base: must be rejected
+    if (r.chance(1, 30)) { *R = *B; *gen = "same-object"; return; }
     UriGenOpts o; o.dotHeavy = r.chance(2, 3); o.maxSegs = 7;
     switch (r.below(6)) {
     case 0: *gen = "uri"; *R = gen_uri(r); break;
@@ -49,6 +50,7 @@ template <class X> void run(Ctx& c, const Str& Bs, const Str& Rs, const char* ge
     Comp mb = split(Bs), mr = split(Rs);
     c.note(fmt("%s resolve base=\"%s\" ref=\"%s\"", X::tag(), esc(Bs.substr(0, 150)).c_str(), esc(Rs.substr(0, 150)).c_str()));
     Ledger led;
+    bool sameObject = Bs == Rs;      // reference and base are the very same object
     for (int variant = 0; variant < 4; variant++) {
         // 0: AddBaseUri, 1: Ex strict, 2: Ex compat, 3: ExMm (strict or compat)
         bool compat = variant == 2 || (variant == 3 && c.rng.coin());
@@ -64,7 +66,7 @@ template <class X> void run(Ctx& c, const Str& Bs, const Str& Rs, const char* ge
         {
             LibScope ls;
             switch (variant) {
-            case 0: rc = X::AddBaseUri(&D.u, &R.u, &B.u); break;
+            case 0: rc = X::AddBaseUri(&D.u, sameObject ? &B.u : &R.u, &B.u); break;
             case 1: case 2: rc = X::AddBaseUriEx(&D.u, &R.u, &B.u, opt); break;
             default: D.led = &led; rc = X::AddBaseUriExMm(&D.u, &R.u, &B.u, opt, led.mgr()); break;
             }
